@@ -150,8 +150,12 @@ def run(res, tier):
     res.rule("C09.7 the OpenMP target/source executor applies per stage what the sequential target/source reference applies: same wrapper applications, level interval, guards, mappers and walk over the groups (rule C03.a on TbfOpenmpAlgorithmTsm)")
     import c03 as _c03, stages as _stages
     _sub3 = tbf.Result("C03")
-    _c03.same_submissions(facts, _stages.ExecutorSummary(facts, "TbfOpenmpAlgorithmTsm"), _stages.ExecutorSummary(facts, "TbfAlgorithmTsm"), _sub3)
-    tbf.reexport(res, _sub3, ("C03.a",), "C09.7.same-work-as-reference", min_instances=6)
+    try:
+        _c03.same_submissions(facts, _stages.ExecutorSummary(facts, "TbfOpenmpAlgorithmTsm"), _stages.ExecutorSummary(facts, "TbfAlgorithmTsm"), _sub3)
+        tbf.reexport(res, _sub3, ("C03.a",), "C09.7.same-work-as-reference", min_instances=6)
+    except AnalysisBroken as e_:
+        # the stage summaries cannot be built: the clauses below speak first (deferred: exit 2 only if none of them has a verdict)
+        res.deferred = getattr(res, "deferred", []) + [e_]
     res.rule("C09.8 periodic target/source run: the expansions of the virtual levels above the root, which carry every far image of the sources to the targets, are members of the top-tree executor written only through the operators (rule C12.5 on TbfAlgorithmPeriodicTopTreeTsm) - kept in a local or reset per call, a staged full execution hands the targets the 27 nearest images only")
     import c12 as _c12
     _sub12 = tbf.Result("C12")
